@@ -62,6 +62,9 @@ type Hooks interface {
 	OnSliceStore(c *Ctx, instr ssa.Instruction, so SliceOf, val AbsVal)
 	// LenIsZero resolves len(so) == 0 from ghost state.
 	LenIsZero(c *Ctx, so SliceOf) (zero bool, known bool)
+	// DynamicResult may supply the result of a call whose target is
+	// unknown (handled=true: the call has exactly this normal outcome).
+	DynamicResult(c *Ctx, instr ssa.Instruction, args []AbsVal) (ret AbsVal, handled bool)
 	// OnPanic is called at an explicit panic statement that is modelled.
 	OnPanic(c *Ctx, instr ssa.Instruction)
 	// OnEscape is called when a tracked slice (or the address of its
@@ -1095,7 +1098,7 @@ func convertVal(v AbsVal, from, to types.Type) AbsVal {
 			return v
 		}
 		return Top{}
-	case Other:
+	case Other, Sym:
 		return v
 	case NilV:
 		return v
@@ -1155,6 +1158,10 @@ func absEqual(x, y AbsVal) (eq, known bool) {
 	case Other:
 		if _, ok := y.(Const); ok {
 			return false, true
+		}
+	case Sym:
+		if ys, ok := y.(Sym); ok && ys == xv {
+			return true, true
 		}
 	case NilV:
 		switch nilness(y) {
@@ -1507,3 +1514,5 @@ func (it *Interp) typeAssert(fn *ssa.Function, st *State, ins *ssa.TypeAssert, b
 	}
 	return []AbsVal{mk(succ, true), mk(zeroOf(ins.AssertedType), false)}
 }
+
+func (BaseHooks) DynamicResult(*Ctx, ssa.Instruction, []AbsVal) (AbsVal, bool) { return nil, false }
